@@ -24,6 +24,9 @@ func c12Gen(r *gen.Rng, tier string, idx int) interface{} {
 	if r.Chance(1, 2) {
 		o.MaxGroup = r.Range(1, 9)
 	}
+	if r.Chance(1, 6) {
+		return &C12Case{F: gen.RandomGroupFormula(r, false)}
+	}
 	return &C12Case{F: gen.RandomFormula(r, o, 0, false)}
 }
 
